@@ -136,6 +136,27 @@ def hidden_state_sites(model: SrcModel, fn: FuncDef) -> List[Tuple[str, ast.AST,
             v = mutables.get(n.value.id)
             if isinstance(v, (ast.Call, ast.Dict, ast.List, ast.Set)):
                 out.append(("shared-return", n, f"returns the module-level object '{n.value.id}' (one instance shared by all callers)"))
+        # a module-level mutable object (repo model instance, dict/list literal) that escapes into a result
+        if isinstance(n, (ast.Call, ast.Assign, ast.AnnAssign, ast.List, ast.Tuple, ast.Dict, ast.Set)):
+            cands: List[ast.AST] = []
+            if isinstance(n, ast.Call):
+                callee = model.resolve_expr(mod, n.func) if isinstance(n.func, (ast.Name, ast.Attribute)) else None
+                if isinstance(callee, (ClassDef, FuncDef)) or callee is None:
+                    cands = [*n.args, *[k.value for k in n.keywords]]
+                    if isinstance(n.func, ast.Attribute) and n.func.attr in ("get", "items", "keys", "values", "debug", "info", "warning", "log", "match", "fullmatch", "sub", "search"):
+                        cands = []
+            elif isinstance(n, (ast.Assign, ast.AnnAssign)):
+                cands = [n.value] if n.value is not None else []
+            elif isinstance(n, ast.Dict):
+                cands = list(n.values)
+            else:
+                cands = list(n.elts)
+            for c in cands:
+                if isinstance(c, ast.Name) and is_module_var(c.id):
+                    v = mutables.get(c.id)
+                    is_model_obj = isinstance(v, ast.Call) and isinstance(model.resolve_expr(mod, v.func), ClassDef)
+                    if is_model_obj or isinstance(v, (ast.Dict, ast.List, ast.Set)):
+                        out.append(("shared-escape", n, f"hands the module-level object '{c.id}' on ({norm(n, 70)}): one instance is shared by all results"))
         if isinstance(n, ast.Return) and isinstance(n.value, ast.IfExp):
             for side in (n.value.body, n.value.orelse):
                 if isinstance(side, ast.Name) and is_module_var(side.id) and isinstance(mutables.get(side.id), (ast.Call, ast.Dict, ast.List)):
